@@ -154,6 +154,27 @@ def _b_gen150(step, env):
     return gen()
 
 
+@core.builder('gen_fail120')
+def _b_gen_fail120(step, env):
+    def gen():
+        # a source that breaks beyond the 100-row inference sample
+        for i in range(120):
+            yield {'n': i, 't': 's%d' % i}
+        raise RuntimeError('source breaks at row 120')
+    return gen()
+
+
+@core.builder('row_fail2')
+def _b_row_fail2(step, env):
+    seen = [0]
+
+    def failing(row):
+        seen[0] += 1
+        if seen[0] == 2:
+            raise RuntimeError('row function fails on the second row it sees')
+    return failing
+
+
 @core.builder('load_tuple')
 def _b_load_tuple(step, env):
     st = mkstate([('lt', [('a', 'integer'), ('q', 'string')], [{'a': 5, 'q': 'u'}, {'a': 6, 'q': 'v'}])])
@@ -211,6 +232,8 @@ BUILTINS = {
     'update_stats': S('update_stats', {'k': 1}),
     'iterable': {'op': 'iterable', 'rows': [{'a': 9, 'w': 'i'}, {'a': 8, 'w': None}]},
     'gen150': {'op': 'gen150'},
+    'gen_fail120': {'op': 'gen_fail120'},
+    'row_fail2': {'op': 'row_fail2'},
     'load_tuple': {'op': 'load_tuple'},
     'sources': {'op': 'sources2'},
     'parallelize1': S('parallelize', {'$fn': 'e1_par_rowfunc'}, 1),
@@ -228,6 +251,7 @@ SIGMA_NOKIND = list(BUILTINS) + ['user:%s:function' % r for r in ROLE_IMPL]     
 SIGMA_ROW = ['add_field', 'delete_fields', 'rename_fields', 'filter_rows', 'set_type', 'unpivot', 'duplicate',
              'concatenate', 'sort_rows', 'user:row_inplace:function', 'user:rows:function',
              'user:package:function', 'gen150', 'concatenate_r1r2', 'user:rows_peek:function']                                    # "Sigma12" + a one-shot generator source
+MUST_FAIL = {'gen_fail120'}      # links that fail by construction, whatever reaches them
 FILE_WRITERS = {'dump_to_path', 'dump_to_path_json', 'stream', 'checkpoint'}
 UNORDERED_SYMS = set()
 
@@ -498,6 +522,8 @@ def stepwise(init, path, memo=None):
                 memo['#transitions'] = memo.get('#transitions', 0) + 1
         if r['res'][0] == 'exc':
             return {'kind': 'exc', 'at': i, 'exc': r['res'][1], 'missing': r['missing']}
+        if sym in MUST_FAIL:
+            return {'kind': 'swallowed', 'at': i}
         if r['missing']:
             if sym.startswith('user:row_') and not any(len(x) for x in state.rows):
                 legit.add('u%d' % (i + 1))       # a row function legitimately never runs when no row reaches it
@@ -538,12 +564,21 @@ def check_path(inp, path, memo=None, variants=False):
         viol.append(('identity-link', 'Flow(..., %s): a rows-function that passes every row on (after peeking at the first) '
                      'changed the stream: %s' % (path[sw['at']], sw['diff'])))
         return viol, 'differs', None
+    if sw['kind'] == 'swallowed':
+        viol.append(('failure-swallowed', 'stepwise Flow(..., %s) returned normally although the link raises while its rows '
+                     'are consumed' % path[sw['at']]))
+        return viol, 'differs', None
     if sw['kind'] == 'skipped':
         viol.append(('skipped-link', 'stepwise Flow(..., %s) returned normally but the user link never ran'
                      % path[sw['at']]))
         return viol, 'skipped', None
     if sw['kind'] == 'exc':
-        return viol, 'rejected:%s' % ('both' if lz['res'][0] == 'exc' else 'stepwise-only'), None
+        if lz['res'][0] != 'exc':
+            e = sw['exc']
+            viol.append(('lazy-swallows', 'Flow(%s) returned normally although step %s raises %s (%s) on the materialised output '
+                         'of the previous one' % (', '.join(path), path[sw['at']], core.exc_sig(e), str(e)[:100].replace('\n', ' '))))
+            return viol, 'differs', None
+        return viol, 'rejected:both', None
     if lz['res'][0] == 'exc':
         e = lz['res'][1]
         viol.append(('lazy-raises', 'Flow(%s) raises %s (%s) although every step succeeds on the materialised '
